@@ -8,4 +8,5 @@ export GOFLAGS=-mod=mod GOPROXY=off GOSUMDB=off GOTOOLCHAIN=local
 ID="${1:?property id}"; TIER="${2:-quick}"; shift; shift || true
 [ -n "${VERIF_TIER:-}" ] && TIER="$VERIF_TIER"
 ./build.sh "$ID" "$TIER" || { echo "BROKEN check=$ID build failed"; exit 2; }
-exec ./bin/vcheck run "$ID" "$TIER" "$@"
+BIN=vcheck; case "$ID" in C15|C17|C18) BIN=vgen;; esac
+exec ./bin/$BIN run "$ID" "$TIER" "$@"
